@@ -272,6 +272,181 @@ fn w7_walk<R: Rng>(rng: &mut R, st: &mut Stats, steps: u64) {
 }
 
 
+/// Contact scale of two convex polygons given by their vertices about their own centres:
+/// the factor t at which `pi` and `pj + t u` just touch (they overlap for smaller t).
+fn contact_scale(pi: &[[f64; 2]], pj: &[[f64; 2]], u: [f64; 2]) -> f64 {
+    let mut best = f64::INFINITY;
+    let mut axis = |a: [f64; 2]| {
+        let au = a[0] * u[0] + a[1] * u[1];
+        for (sgn, au) in [(1., au), (-1., -au)].iter() {
+            if *au > 1e-300 {
+                let max_i = pi.iter().map(|p| sgn * (a[0] * p[0] + a[1] * p[1])).fold(f64::NEG_INFINITY, f64::max);
+                let min_j = pj.iter().map(|p| sgn * (a[0] * p[0] + a[1] * p[1])).fold(f64::INFINITY, f64::min);
+                let t = (max_i - min_j) / au;
+                if t < best {
+                    best = t;
+                }
+            }
+        }
+    };
+    for poly in [pi, pj].iter() {
+        for k in 0..poly.len() {
+            let (p, q) = (poly[k], poly[(k + 1) % poly.len()]);
+            axis([q[1] - p[1], p[0] - q[0]]);
+        }
+    }
+    best
+}
+
+/// W8: search for states whose first contact is with a *chosen* image.  For a target class
+/// (ordered pair of copies, lattice image (n, m) of the second or third shell) the margin
+/// "contact length of the target - largest contact length of any other pair/image" is climbed
+/// over (ratio, angle, site, orientation); where it becomes positive the target image is the one
+/// that touches first, and the library is asked just inside that contact.  The search only
+/// proposes states: every verdict comes from the exhaustive oracle in `judge`.
+fn w8_target_search<R: Rng>(rng: &mut R, st: &mut Stats, iterations: u32) {
+    let group = ["p2", "p2", "p2", "p1"][rng.gen_range(0, 4)];
+    let sides = [3usize, 3, 3, 4, 5][rng.gen_range(0, 5)];
+    let spec = ShapeSpec::Polygon { sides };
+    let shape = match spec.line() {
+        Some(s) => s,
+        None => return,
+    };
+    let verts: Vec<[f64; 2]> = match shape.oshape() {
+        crate::oracle::geom::OShape::Poly(v) => v,
+        _ => return,
+    };
+    let ncopies = groups::group(group).unwrap().ops.len();
+    // target: an image of the second or third shell, either sign, corners favoured
+    let pick = |rng: &mut R| -> (i64, i64) {
+        let k = [2i64, 2, 2, 3][rng.gen_range(0, 4)];
+        if rng.gen_bool(0.5) {
+            let s = if rng.gen_bool(0.5) { 1 } else { -1 };
+            let t = if rng.gen_bool(0.7) { -s } else { s };
+            (s * k, t * k)
+        } else {
+            let other = rng.gen_range(-k, k + 1);
+            let s = if rng.gen_bool(0.5) { k } else { -k };
+            if rng.gen_bool(0.5) {
+                (s, other)
+            } else {
+                (other, s)
+            }
+        }
+    };
+    let (tn, tm) = pick(rng);
+    let (ti, tj) = if ncopies == 1 || rng.gen_bool(0.2) { (0usize, 0usize) } else { (0, 1) };
+    if ti == tj && (tn, tm) < (0, 0) {
+        // (for a copy and itself, image n is image -n seen from the other side)
+    }
+    let (_, _, mut p) = rand_config(rng, true);
+    p.len = 1.;
+    let mut pbig = p;
+    pbig.len = libx::BIG_LEN;
+    let state = match build_packed(shape, group, &pbig) {
+        Ok(s) => s,
+        Err(_) => return,
+    };
+    let mut basis = state.generate_basis();
+    let layout = match libx::basis_layout(group) {
+        Ok(l) => l,
+        Err(_) => return,
+    };
+    let oblique = libx::is_oblique(group);
+    // margin and the contact length of the target, for the parameters written into the state
+    let eval = |basis: &mut Vec<packing::StandardBasis>, q: &Params| -> Option<(f64, f64)> {
+        let vals: Vec<f64> = if oblique { vec![1., q.ratio, q.angle, q.x, q.y, q.phi] } else { vec![1., q.ratio, q.x, q.y, q.phi] };
+        for (k, v) in vals.iter().enumerate() {
+            basis[layout[k]].set_value(*v);
+        }
+        let view = hard::view(&state);
+        if view.placements.len() != ncopies {
+            return None;
+        }
+        let polys: Vec<Vec<[f64; 2]>> = view.placements.iter().map(|t| verts.iter().map(|v| [t.m[0][0] * v[0] + t.m[0][1] * v[1], t.m[1][0] * v[0] + t.m[1][1] * v[1]]).collect()).collect();
+        let (va, vb) = (view.lattice.va(), view.lattice.vb());
+        let mut target = f64::NAN;
+        let mut others = 0f64;
+        for i in 0..ncopies {
+            for j in i..ncopies {
+                for n in -4i64..=4 {
+                    for m in -4i64..=4 {
+                        if i == j && n == 0 && m == 0 {
+                            continue;
+                        }
+                        let u = [view.placements[j].t[0] - view.placements[i].t[0] + n as f64 * va[0] + m as f64 * vb[0], view.placements[j].t[1] - view.placements[i].t[1] + n as f64 * va[1] + m as f64 * vb[1]];
+                        let t = contact_scale(&polys[i], &polys[j], u);
+                        let is_target = (i, j, n, m) == (ti, tj, tn, tm) || (i == j && ti == tj && (n, m) == (-tn, -tm));
+                        if is_target {
+                            target = t;
+                        } else if t > others {
+                            others = t;
+                        }
+                    }
+                }
+            }
+        }
+        if target.is_finite() {
+            Some((target - others, target))
+        } else {
+            None
+        }
+    };
+    let clampf = |v: f64, lo: f64, hi: f64| v.max(lo).min(hi);
+    let mut cur = p;
+    let mut cur_m = match eval(&mut basis, &cur) {
+        Some(x) => x,
+        None => return,
+    };
+    st.count("w8_searches");
+    let mut probes = 0;
+    for it in 0..iterations {
+        let mut q = cur;
+        for _ in 0..rng.gen_range(1, 3) {
+            let sdev = [0.002, 0.02, 0.2][rng.gen_range(0, 3)];
+            let d = rng.gen_range(-1., 1.) * sdev;
+            match rng.gen_range(0, 5) {
+                0 => q.ratio = clampf(q.ratio + d, 0.1, 1.),
+                1 => q.angle = if oblique { clampf(q.angle + d, PI / 6., PI / 2.) } else { q.angle },
+                2 => q.x = clampf(q.x + d, -0.5, 0.5),
+                3 => q.y = clampf(q.y + d, -0.5, 0.5),
+                _ => q.phi = (q.phi + 6. * d).rem_euclid(2. * PI),
+            }
+        }
+        let m = match eval(&mut basis, &q) {
+            Some(x) => x,
+            None => continue,
+        };
+        // relative margin: climb, with a little tolerance early on
+        let better = m.0 / m.1 > cur_m.0 / cur_m.1 - if it < iterations / 2 { 0.002 } else { 0. };
+        if better {
+            cur = q;
+            cur_m = m;
+        }
+        if m.0 > 1e-6 * m.1 && probes < 6 {
+            // the target image touches first, at cell length m.1: ask the library just inside
+            probes += 1;
+            st.count(&format!("w8_states_whose_first_contact_is_image[{}][{},{}]{}", group, tn, tm, if ti < tj { "[i<j]" } else { "[i=j]" }));
+            let vals: Vec<f64> = if oblique { vec![1., q.ratio, q.angle, q.x, q.y, q.phi] } else { vec![1., q.ratio, q.x, q.y, q.phi] };
+            for (k, v) in vals.iter().enumerate() {
+                basis[layout[k]].set_value(*v);
+            }
+            for frac in [0.1, 0.5, 0.9].iter() {
+                // between the target's contact length and the next pair's
+                let len = m.1 - frac * m.0;
+                basis[layout[0]].set_value(len);
+                let mut pp = q;
+                pp.len = basis[layout[0]].get_value();
+                let case = Case { group: group.to_string(), shape: spec.clone(), params: pp, workload: format!("W8-only-image-({},{})-overlaps", tn, tm) };
+                judge(&state, &case, st);
+            }
+        }
+    }
+    if probes > 0 {
+        st.count("w8_searches_that_reached_their_target");
+    }
+}
+
 fn dispatch_w<R: Rng>(which: u8, rng: &mut R, st: &mut Stats) {
     let focus = which == 2;
     let (group, spec, p) = rand_config(rng, focus);
@@ -475,7 +650,7 @@ pub fn gen_history<R: Rng>(rng: &mut R) -> History {
 }
 
 pub fn run(ctx: &Ctx) {
-    ctx.set_rule("W1 uniform states (7 groups x polygons 3..12 / circle / trimers x cells x sites incl. exact faces and special positions, cell area 0.8-2.5 x the copies' area); W2 boundary-focused: per configuration (copies 1e-5..1e-1 from cell faces, ratio down to 0.1, angle down to pi/6) the cell length is bisected to the oracle's first contact L* and the library is asked at L*(1-eps), eps in {1e-5,1e-3,1e-2,3e-2,0.1,0.2}, and at L*(1+1e-6); W3 real three-stage optimiser pipelines (hill-climb and CLI-shaped) observed through Spy: every stage result and a bounded sample of scored evaluations; W4 JSON files written by the CLI; W7 flat-histogram walks: the W2 procedure along Markov chains over (ratio, angle, site, orientation) that are accepted towards first-contact classes - ordered pair of copies x lattice image (n,m) - visited less often, so that rare images (corners of the second and third shell) get their share of probes; W5 state objects that live through histories of 3-13 edits (several parameters at once - set, rescaled by powers of two, negated, nudged, exchanged, reset -, shape or cell replaced, clone(), JSON round trip), judged after every edit. Oracle: exhaustive image enumeration from cell heights + SAT/disc depth; event = library score defined while depth > 1e-9 (re-confirmed by polygon clipping / lens point). Non-trivial = scored states within 5% R of contact, and overlapping states (where a miss is possible); distinct by quantised parameters");
+    ctx.set_rule("W1 uniform states (7 groups x polygons 3..12 / circle / trimers x cells x sites incl. exact faces and special positions, cell area 0.8-2.5 x the copies' area); W2 boundary-focused: per configuration (copies 1e-5..1e-1 from cell faces, ratio down to 0.1, angle down to pi/6) the cell length is bisected to the oracle's first contact L* and the library is asked at L*(1-eps), eps in {1e-5,1e-3,1e-2,3e-2,0.1,0.2}, and at L*(1+1e-6); W3 real three-stage optimiser pipelines (hill-climb and CLI-shaped) observed through Spy: every stage result and a bounded sample of scored evaluations; W4 JSON files written by the CLI; W8 targeted search: for a chosen image (n,m) of the second or third shell and an ordered pair of copies, the margin between that pair's contact length and every other pair's is climbed over (ratio, angle, site, orientation) with exact contact lengths from separating axes, and where the chosen image touches first the library is asked between its contact length and the next one's; W7 flat-histogram walks: the W2 procedure along Markov chains over (ratio, angle, site, orientation) that are accepted towards first-contact classes - ordered pair of copies x lattice image (n,m) - visited less often, so that rare images (corners of the second and third shell) get their share of probes; W5 state objects that live through histories of 3-13 edits (several parameters at once - set, rescaled by powers of two, negated, nudged, exchanged, reset -, shape or cell replaced, clone(), JSON round trip), judged after every edit. Oracle: exhaustive image enumeration from cell heights + SAT/disc depth; event = library score defined while depth > 1e-9 (re-confirmed by polygon clipping / lens point). Non-trivial = scored states within 5% R of contact, and overlapping states (where a miss is possible); distinct by quantised parameters");
     ctx.assume("convex regular polygons and unions of discs; placements are taken from cartesian_positions() (their correctness is C04/C14/C15)");
     let tier = ctx.tier;
     // per shard (64 shards)
@@ -495,6 +670,9 @@ pub fn run(ctx: &Ctx) {
         }
         for _ in 0..2 {
             w7_walk(rng, st, n2 / 8);
+        }
+        for _ in 0..n2 / 80 {
+            w8_target_search(rng, st, 400);
         }
     });
     let prev = std::panic::take_hook();
